@@ -85,6 +85,7 @@ type thread struct {
 	gate    chan struct{}
 	blockOn string
 	ticks   int
+	locks   int // shim locks held (ticks inside a critical section are always yield points)
 	// rendezvous payload
 	val any
 	ok  bool
@@ -305,7 +306,9 @@ func Tick() {
 			y := false
 			if me != nil {
 				me.ticks++
-				y = me.ticks%e.opt.YieldMod == 0
+				// critical sections are short and are where an ill-timed switch matters: every
+				// instrumented point inside one is a yield point whatever the thinning.
+				y = me.ticks%e.opt.YieldMod == 0 || me.locks > 0
 			}
 			e.mu.Unlock()
 			if y {
@@ -907,6 +910,9 @@ func SyncOp(depth int) {
 	e.mu.Lock()
 	e.syncOps++
 	e.lockDepth += depth
+	if e.cur != nil {
+		e.cur.locks += depth
+	}
 	e.mu.Unlock()
 }
 
